@@ -6,6 +6,12 @@ export GOPROXY=off
 unset GOFLAGS GOTOOLCHAIN GOSUMDB 2>/dev/null
 mkdir -p .tmp; OUT=.tmp/baseline.$$.json; : > $OUT
 REPO=${1:-/repo}
+# Several repository tests keep their scratch data in git-ignored directories inside the tree
+# (app/server/gateway/data, app/*/settings, ...) and fail when a previous run left records there
+# (they expect CREATED). Start every baseline run from clean scratch directories.
+git -C "$REPO" clean -fdXq -- app sdk 2>/dev/null
+cleanup() { git -C "$REPO" clean -fdXq -- app sdk 2>/dev/null; }
+trap cleanup EXIT
 for m in . ./sdk/go/hydraidego; do
   ( cd $REPO/$m && gw=$(go env GOWORK); MF=""; { [ -z "$gw" ] || [ "$gw" = off ]; } && MF="-mod=mod"; go test $MF -json -vet=off -count=1 -timeout 25m ./... ) >> $OUT 2>/dev/null
 done
